@@ -38,8 +38,24 @@ def strings():
         extra = [("gen", "en", x, p) for x, p in (("31 2015", ("day", "year")), ("30 2015 10:45", ("day", "year", "time")),
                                                   ("29 2013", ("day", "year")), ("31 May 2015", ("day", "month", "year")),
                                                   ("31", ("day",)), ("30 10:45", ("day", "time")))]
-        _S = [("gen", g["lang"], g["string"], g["parts"]) for g in gen] + extra + [("corpus", loc, s, None) for s, loc in cor]
+        _S = ([("gen", g["lang"], g["string"], g["parts"]) for g in gen] + extra + [("corpus", loc, s, None) for s, loc in cor]
+              + [(src, "en", x, None) for x in degenerate() for src in ("degenerate", "degenerate-dmy")])
     return _S
+
+
+def degenerate():
+    """Numeric dates in which a field is written as 0 / 00 / 0000 or is out of range: which parts such a string "states" is the
+    library's business (no part labels), but whatever it decides must obey the relations (filter only, same under every base)."""
+    out = set()
+    for lay in ("{d}/{m}/{y}", "{d}.{m}.{y}", "{d}-{m}-{y}", "{d} {mon} {y}", "{mon} {d} {y}", "{mon} {d}, {y}", "{d} {m} {y}", "{y}-{m}-{d}",
+                "{y}/{m}/{d}", "{d} {mon}", "{mon} {d}", "{mon} {y}", "{d}/{m}", "{m}/{y}", "{y}{m}{d}", "{d}{m}{y}"):
+        for d in ("00", "0", "15", "32"):
+            for m in ("00", "0", "11", "13"):
+                for y in ("2015", "0000", "00", "15"):
+                    if "{d}" not in lay and d != "15" or "{m}" not in lay and m != "11" or "{y}" not in lay and y != "2015":
+                        continue
+                    out.add(lay.format(d=d, m=m, y=y, mon="nov"))
+    return sorted(out)
 
 
 def spaces(tier, seed):
@@ -96,7 +112,7 @@ def run_case(sub, c):
     if kind == "strict+require":
         extra["STRICT_PARSING"] = True
     required = ("day", "month", "year") if kind.startswith("strict") else tuple(req)
-    gen = parts is not None
+    gen = src in ("gen", "degenerate-dmy")
     u1, u2 = unrestricted(c["s"], s, lang, c["pc"], gen)
     r1 = _parse(s, lang, c["pc"], B1, extra, gen)
     r2 = _parse(s, lang, c["pc"], B2, extra, gen)
